@@ -1,12 +1,28 @@
 (* C16 requests: 1600.. *)
 From Coq Require Import List ZArith QArith Bool.
-From PV Require Import lib.Sx lib.Str lib.Result spec.SpecScc16 extract.OrCommon.
+From PV Require Import lib.Sx lib.Str lib.Result model.SccStash model.SccPopon model.SccRollPaint spec.SpecScc16 spec.SpecSccTime extract.OrCommon.
 Import ListNotations.
 Open Scope Z_scope.
 
 Definition sx_obs_cap (x : sx) : option obs_cap :=
   match x with
   | SL [a; b; SS t] => match sx_q a, sx_q b with Some a, Some b => Some (a, b, t) | _, _ => None end
+  | _ => None
+  end.
+
+Definition sx_tc16 (x : sx) : option timecode :=
+  match x with
+  | SL [SI h; SI m; SI s; d; SI f] => match sx_bool d with Some d => Some (mkTc h m s d f) | None => None end
+  | _ => None
+  end.
+(* event: [kind; timecode; k]  kind 0 = roll-up flush, 1 = paint-on store *)
+Definition sx_rpev (x : sx) : option rpev :=
+  match x with
+  | SL [SI kind; tc; SI k] =>
+      match sx_tc16 tc with
+      | Some tc => let t := Qred (spec_instant tc k 0) in Some (if kind =? 0 then RRoll t else RPaint t)
+      | None => None
+      end
   | _ => None
   end.
 
@@ -20,6 +36,27 @@ Definition dispatch (code : Z) (arg : sx) : option sx :=
                               of_bool (match obs with Ok c => ok_text rows c | Err _ => false end);
                               of_bool (match obs with Ok c => ok_chain c | Err _ => false end)]
                       | _, _ => bad
+                      end
+                  | _ => bad
+                  end)
+  | 1601 => Some (match arg with
+                  | SL [rows; SI nb; obs] =>
+                      match sx_listof sx_str rows, sx_result (sx_listof sx_obs_cap) obs with
+                      | Some rows, Some obs =>
+                          SL [of_bool (ok_c16_screens rows nb obs);
+                              of_bool (match obs with Ok c => ok_text rows c | Err _ => false end);
+                              of_bool (match obs with Ok c => ok_chain c | Err _ => false end)]
+                      | _, _ => bad
+                      end
+                  | _ => bad
+                  end)
+  | 1602 => Some (match arg with          (* event model: [first mode command [tc; k]; events [kind; tc; k]; pending] -> spans *)
+                  | SL [SL [tc0; SI k0]; evs; pend] =>
+                      match sx_tc16 tc0, sx_listof sx_rpev evs, sx_bool pend with
+                      | Some tc0, Some evs, Some pend =>
+                          of_result (of_list (fun p : Q * Q => SL [of_q (fst p); of_q (snd p)]))
+                                    (rp_read (Qred (spec_instant tc0 k0 0)) evs pend)
+                      | _, _, _ => bad
                       end
                   | _ => bad
                   end)
